@@ -12,10 +12,10 @@
      theorem can hold because of them:
        [HPanic] : DECODE_TABLE / ENCODE_TABLE index out of range, or `bits -= used` underflowing
                   (a panic in builds with overflow checks; garbage otherwise);
-       [HLoop]  : the model's fuel ran out.  Fuel is 8 per inner `while`; every iteration of
-                  either loop with [used >= 1] lowers [bits] (which is < 16, resp. < 8), so the
-                  fuel only runs out for a table with a leaf entry whose bit count is 0 -- for
-                  which the Rust loop would not terminate either.
+       [HLoop]  : the model's fuel ran out.  The fuel of both `while` loops is the number of
+                  pending bits [bits] at loop entry: every iteration with [used >= 1] consumes at
+                  least one pending bit, so the fuel only runs out for a table with a leaf entry
+                  whose bit count is 0 -- for which the Rust loop would not terminate either.
      The proofs show that neither happens for the tables in /repo.
    * an entry of DECODE_TABLE is taken apart with the same bit operations as the Rust code
      ([N.land], [N.shiftr] with the constants of mod.rs regenerated into Gen/HuffTables.v);
@@ -129,16 +129,14 @@ Fixpoint dec_finish (fuel : nat) (table acc bits : N) : hres :=
         end
   end.
 
-Definition inner_fuel : nat := 8.
-
 (*  for &byte in src { acc = (acc << 8) | byte as u32; bits += 8; while bits >= 8 {..} }       *)
 Fixpoint dec_bytes (table acc bits : N) (src : list N) : hres :=
   match src with
-  | [] => dec_finish inner_fuel table acc bits
+  | [] => dec_finish (N.to_nat bits) table acc bits
   | byte :: src' =>
       let acc := N.lor ((acc * 256) mod 2 ^ 32) byte in
       let bits := bits + 8 in
-      match dec_inner inner_fuel table acc bits with
+      match dec_inner (N.to_nat bits) table acc bits with
       | IState table' bits' put => hres_put put (dec_bytes table' acc bits' src')
       | IErr => HErr
       | IPanic => HPanic
